@@ -335,7 +335,15 @@ def read_only(ctx: Ctx, py: PyProgram, rs: RustProgram) -> None:
             ok = True
     if not ok:
         ctx.violation("C11.4/read-only", key_of(BUS_PY, "MemoryBus._write_to_overlay", "swallow"), "writes to a read-only overlay are not swallowed (they fall through to the backing memory)", f"{BUS_PY}:{wo.lineno}")
-    ctx.instance("C11.4/read-only", "CPU-path stores dominated by the read-only test; overlay data stores by !read_only; read-only overlays swallow writes", n, 7)
+    # ... on every path: the 'not handled, try the next layer' verdict may only be returned when the overlay is known not to be read-only
+    for r in ast.walk(wo):
+        if isinstance(r, ast.Return) and isinstance(r.value, ast.Tuple) and r.value.elts and unparse(r.value.elts[0]) == "False":
+            n += 1
+            gs = g.guards_of(g.node_of(r))
+            if not any(isinstance(a, ast.AST) and unparse(a) == "overlay.read_only" and not pol for a, pol, _o in gs):
+                ctx.violation("C11.4/read-only", key_of(BUS_PY, "MemoryBus._write_to_overlay", "unhandled verdict reachable for a read-only overlay"),
+                              "a write into a read-only overlay can return 'not handled' (e.g. an address of the window that has no backing data): the store then lands in the base memory and is read back", f"{BUS_PY}:{r.lineno}", guards=[py_guard_text(q) for q in gs])
+    ctx.instance("C11.4/read-only", "CPU-path stores dominated by the read-only test; overlay data stores by !read_only; read-only overlays swallow writes on every path", n, 8)
 
 
 # ---------------------------------------------------------------------------
